@@ -181,12 +181,32 @@ def job(payload):
                     # E+ = distinct (E E*)
                     t2, r2 = run(("cat", list(s) + [body, ("close", "*", body)]))
                     t3, r3 = run(("cat", list(s) + [("close", "+", body)]))
+                    if r2["st"] == "done":
+                        # E E* itself: every result of E is a fresh input of E*, so stacks reachable from several of them come out several times
+                        m2 = M.run(("cat", list(s) + [body, ("close", "*", body)]), budget=400000)
+                        if m2["status"] not in ("indeterminate", "budget"):
+                            out["rel"] += 1
+                            why2 = zcheck.compare_model(m2, r2)
+                            if why2:
+                                bad.append(("O1:E E*:" + why2, dict(text=t2, **zcheck.describe(m2, r2))))
                     if r2["st"] == "done" and r3["st"] == "done":
                         out["rel"] += 1
                         if sorted(set(keys(r2))) != keys(r3):
                             bad.append(("O2:E+ != distinct(E E*)", dict(plus=t3, seq=t2)))
                         if len(keys(r2)) != len(set(keys(r2))):
                             out["cyclic"] += 1
+                    # a body that reads a name bound OUTSIDE the closure, reached twice with equal start stacks but different bindings
+                    if i % 3 == 1:
+                        a1, a2, mm = rng.randint(1, 3), rng.randint(1, 3), rng.randint(3, 7)
+                        inner = ("paren", (), ("cat", [("read", "Ao"), W("add"), I(mm), W("mod")]))
+                        p6 = ("cat", [("alt", [I(a1), I(a2), I(a1)]), ("paren", ("Ao",), ("cat", [I(0), ("close", ck, inner)]))])
+                        t6, r6 = run(p6)
+                        m6 = M.run(p6, budget=400000)
+                        out["rel"] += 1
+                        if r6["st"] == "done" and m6["status"] not in ("indeterminate", "budget"):
+                            why = zcheck.compare_model(m6, r6)
+                            if why:
+                                bad.append(("O1:body reads an outer binding:" + why, dict(text=t6, **zcheck.describe(m6, r6))))
                     # two closures in a row: the second starts from a clean slate for every stack the first yields (X* X* is not X*)
                     if i % 3 == 0:
                         for k1, k2 in (("*", "*"), ("*", "+"), ("+", "*")):
